@@ -349,6 +349,10 @@ func (ctx *Context) evaluate() {
 	stack := ctx.stack
 	defer func() {
 		ctx.IsRunning = false // 如果程序崩掉，不过halt
+		if r := recover(); r != nil {
+			// 字节码或运行时的内部错误不应让宿主程序崩溃，转为普通错误返回
+			ctx.Error = fmt.Errorf("VM内部错误: %v", r)
+		}
 	}()
 
 	e := ctx
